@@ -12,7 +12,7 @@ CHECKS = {
    text=("Model/Defs.v mirrors generate_avps_from_defs / assign_attr_from_defs / UndefinedMessage attribute naming over the avp_def tables of all "
          "typed message classes and grouped containers, re-introspected each run. Link/LinkDefs.v: every class well-formed (each definition has a "
          "dictionary entry, grouped iff container, no duplicate attribute or key, no class-object defaults) modulo the recorded known finding "
-         "(with a _refuted lemma). Proofs/DefsP.v: shape of the generated AVP list, round trip and encode-decode-encode for shaped objects. "
+         "(with a _refuted lemma). Link/LinkDecl.v: the attributes every class declares (annotations) are exactly the names its definitions use. Proofs/DefsP.v: shape of the generated AVP list, round trip and encode-decode-encode for shaped objects. "
          "Correspondence: every class x {none, each single attribute, random subsets, all} encoded/decoded/re-encoded, compared with a "
          "one-AVP-per-attribute reference and with the Coq model; commands without a typed class against undef_attrs."),
    design_ref="DESIGN.md section 6 C03",
@@ -34,7 +34,7 @@ CHECKS = {
          "stream that exactly the decodable frames are delivered in order, once, and that no buffer whatever makes the loop spin; the loop as it was "
          "before the repair is refuted by witnesses. Correspondence: the real PeerConnection.work_read_queue is driven with every 1-cut (and 2-cut "
          "for short streams), byte-at-a-time, random cuts, corrupted length fields at every position; delivered sequence, close, leftover buffer and "
-         "spin compared with the model (5.6k pairs quick)."),
+         "spin compared with the model (5.6k pairs quick). The same at socket level: a running node under vsim fed streams cut around its recv size, in both ready sub-states."),
    design_ref="DESIGN.md section 6 C05",
    note=NOTE_COMMON + " The message handler is assumed not to raise (C14)."),
  "C01": dict(
@@ -107,13 +107,13 @@ CHECKS.update({
              "non-request is never answered; events other than a network read or an application answer queue requests only; every dispatched request that "
              "passes the gate is answered or delivered.",
              "C07_dispatch_answers, C07_no_answer_to_answer, C07_answers_only_from, C07_dispatch_all_answers; over whole histories: C07_history_node_answers, "
-             "C07_history_app_answers, C07_history_answers_le_requests, C07_history_at_most_once, C07_history_no_answer_to_answer"),
+             "C07_history_app_answers, C07_history_answers_le_requests, C07_history_at_most_once, C07_history_no_answer_to_answer; Link/LinkWrite.v (the write path hands every queued answer to the socket exactly once: translated thread programs) with the C15 schedule search behind it"),
  "C08": node("C08", "route_app refines a declarative routing specification (realm, application id, peer configured for the app); a delivered message goes to "
              "exactly one application, base-protocol commands are never delivered, nothing is delivered unless the gate passes.",
              "C08_route_refines, C08_exactly_once, C08_base_never_delivered, C08_gate_then_route"),
  "C09": node("C09", "An application's answer is handed to exactly one READY connection under whose host identity the (hop-by-hop, end-to-end) pair was "
              "waiting, otherwise NotRoutable; entries arise only from delivered requests; second submission fails; entries go with the connection.",
-             "C09_answer_shape, C09_to_requester, C09_entry_from_delivery, C09_entry_host, C09_gone_is_error, C09_second_fails, C09_second_is_error, C09_removed_on_close; over whole histories: C07_history_app_answers (the answer goes out on the connection that read the request); "
+             "C09_answer_shape, C09_to_requester, C09_entry_from_delivery, C09_entry_host, C09_gone_is_error, C09_second_fails, C09_second_is_error, C09_removed_on_close, C09_unroutable_releases_origin; over whole histories: C07_history_app_answers (the answer goes out on the connection that read the request); "
              "the atomic submission step is checked against every line interleaving (bounded pre-emptions) of concurrent route_answer/send_message calls"),
  "C10": node("C10", "route_request refines its specification (application's peers for the realm, else defaults, ready only); the request goes to a peer "
              "chosen from the usable list, identifiers fresh from the generators (bridge to the C16 counter theorems), NotRoutable when none; the "
@@ -165,9 +165,9 @@ CHECKS.update({
              "C18_history_stopping_is_forever, C18_history_quiet, C18_history_newcomers_refused (C18_history_quiet_start_refuted / _conn_done_refuted: the two exceptions)",
              extra="thread termination and socket closure are observed on the implementation (threads are not in the model): partial"),
  "C19": node("C19", "Bounded windows in every reachable state; per-connection and per-transaction entries leave the tables with the connection / the answer. "
-             "Implementation: 18 kinds of transaction / connection-attempt histories at N = 1, 10, 100 (1000 thorough); sizes of all containers reachable "
+             "Every entry of the origin table is backed by an entry of the per-host waiting table in every reachable state (C19_origin_backed), so all four transaction tables are empty once no connection is left. Implementation: 29 kinds of transaction / connection-attempt histories at N = 1, 10, 100 (1000 thorough); sizes of all containers reachable "
              "from the Node (structural discovery), live threads by role and unclosed sockets must not depend on N.",
-             "C19_windows_bounded, C19_waiting_hosts, C19_no_conns_no_waiting, C19_no_conns_no_tables, C13_closed_stays_closed, C09_removed_on_close, C10_correlation, C10_duplicate_ignored",
+             "C19_windows_bounded, C19_waiting_hosts, C19_no_conns_no_waiting, C19_no_conns_no_tables, C19_origin_backed, C19_no_conns_no_origin (C19_origin_backed_request_flag_refuted: needed discipline), C09_unroutable_releases_origin, C13_closed_stays_closed, C09_removed_on_close, C10_correlation, C10_duplicate_ignored",
              extra="N-scaling comparison of retained objects and threads on the real node (threads and sockets are outside the model: partial)"),
 })
 
